@@ -150,6 +150,63 @@ def first_stage(case):
     return None, None
 
 
+LOOSE = object()
+KNOWN_DIRECT = {e['id'] for e in common.load_known('C03') if e.get('status') == 'known'}
+
+
+def ref_unwind(docs, opts):
+    """the flat map `$unwind` denotes, for the plain cases (top-level path, every value of the
+    field an array / null / missing); None when this reference does not want to answer"""
+    if isinstance(docs, Exception) or docs is None:
+        return None
+    if isinstance(opts, str):
+        path, pres, idx = opts, False, None
+    elif isinstance(opts, dict) and set(opts) <= {'path', 'preserveNullAndEmptyArrays',
+                                                   'includeArrayIndex'}:
+        path = opts.get('path')
+        pres = opts.get('preserveNullAndEmptyArrays')
+        idx = opts.get('includeArrayIndex')
+        if not isinstance(pres, bool) and pres is not None:
+            return None
+    else:
+        return None
+    if not isinstance(path, str) or not path.startswith('$') or len(path) < 2 or '.' in path \
+            or path.startswith('$$'):
+        return None
+    if idx is not None and (not isinstance(idx, str) or not idx or idx.startswith('$')
+                            or '..' in idx or idx.startswith('.') or idx.endswith('.')):
+        return None
+    field = path[1:]
+    if idx is not None and (idx == field or idx.startswith(field + '.') or idx.startswith('_id')):
+        return None
+    out = []
+    for d in docs:
+        if not isinstance(d, dict):
+            return None
+        v = d.get(field)
+        if v is None or v == []:
+            if pres:
+                out.append(LOOSE)
+            continue
+        if not isinstance(v, list):
+            return None
+        for i, e in enumerate(v):
+            nd = copy.deepcopy(d)
+            nd[field] = copy.deepcopy(e)
+            if idx is not None:
+                cur = nd
+                parts = idx.split('.')
+                for q in parts[:-1]:
+                    if q not in cur:
+                        cur[q] = {}
+                    cur = cur[q]
+                    if not isinstance(cur, dict):
+                        return None
+                cur[parts[-1]] = i
+            out.append(nd)
+    return out
+
+
 def plain_flags(spec):
     return (isinstance(spec, dict) and spec and
             all(isinstance(k, str) and '.' not in k and not k.startswith('$') for k in spec) and
@@ -199,6 +256,16 @@ def direct_oracles(ctx, case, db, stats):
         name = 'project=find projection'
         got = agg(coll, [{'$project': opts}])
         want = attempt(lambda: list(coll.find({}, copy.deepcopy(opts))))
+    elif op == '$unwind' and ref_unwind(docs, opts) is not None:
+        # one output per array element: an independent copy of the document with the field
+        # replaced (and the index written where includeArrayIndex says)
+        name = 'unwind=flat map'
+        got = agg(coll, [{'$unwind': copy.deepcopy(opts)}])
+        want = ref_unwind(attempt(lambda: list(coll.find())), opts)
+        if not isinstance(got, Exception) and want is not None and len(got) == len(want):
+            # documents kept by preserveNullAndEmptyArrays are not judged here (finding unwindindex)
+            got = [g for g, w in zip(got, want) if w is not LOOSE]
+            want = [w for w in want if w is not LOOSE]
     elif op in ('$addFields', '$set') and isinstance(opts, dict) and len(opts) >= 2 and \
             all(isinstance(k, str) and k and '.' not in k and not k.startswith('$') for k in opts):
         # every entry is evaluated against the document that ENTERED the stage: the stage equals
@@ -230,6 +297,20 @@ def direct_oracles(ctx, case, db, stats):
     if name is None:
         return
     stats[name] += 1
+    if name == 'unwind=flat map' and isinstance(got, Exception) and isinstance(opts, dict) and \
+            '.' in str(opts.get('includeArrayIndex') or '') and \
+            'unwindindexparent' in KNOWN_DIRECT:
+        # listed finding: includeArrayIndex under a missing parent raises KeyError
+        parent = opts['includeArrayIndex'].rsplit('.', 1)[0].split('.')
+        def has(d):
+            for q in parent:
+                if not isinstance(d, dict) or q not in d:
+                    return False
+                d = d[q]
+            return isinstance(d, dict)
+        if not all(has(d) for d in docs):
+            ctx.known_seen['unwindindexparent'] = ctx.known_seen.get('unwindindexparent', 0) + 1
+            return
     if not same(got, want):
         oids = wire.Oids()
         ctx.violation(render(case, kind='the aggregation stage disagrees with the find path: '
